@@ -82,6 +82,11 @@ func (p *c04) RunCase(ctx *runner.Ctx) runner.CaseResult {
 	x := newRes()
 	r := mon.Rng(ctx.Seed, "C04", ctx.Case)
 	adapter := adapt.Adapters[ctx.Case%2]
+	if ctx.Case%4 == 1 {
+		// typed keys: pagination keys (LastEvaluatedKey / ExclusiveStartKey) carry numbers and binaries
+		defer useTypedPools(r)()
+		x.r.Counters["typed_key_states"]++
+	}
 	spec := ixSpec("tbl04", true)
 	nOps := 10 + r.Intn(25)
 	big := ctx.Case%10 == 7
@@ -113,7 +118,7 @@ func (p *c04) RunCase(ctx *runner.Ctx) runner.CaseResult {
 			reqs = append(reqs, req{scanOp(spec.Name, src.index, flt, values, refmodel.RenderOpts{}), fmt.Sprintf("scan|%s|f%d", src.index, fi)})
 			for _, hv := range src.hashPool[:2] {
 				for _, rev := range []bool{false, true} {
-					v2 := val.Item{":h": val.Str(hv)}
+					v2 := val.Item{":h": ixV(src.hashAttr, hv)}
 					var f2 *refmodel.Cond
 					if fi == 1 {
 						f2 = typedFilter(r, v2, "f")
@@ -142,6 +147,11 @@ func (p *c04) RunCase(ctx *runner.Ctx) runner.CaseResult {
 		if base.Class != adapt.ClsOK {
 			// C02/C06 business; pagination cannot be judged
 			x.r.Inconclusive++
+			m := base.Msg
+			if len(m) > 90 {
+				m = m[:90]
+			}
+			x.set("unjudged_requests", base.Class+": "+m)
 			continue
 		}
 		U := base.Items
